@@ -2,10 +2,12 @@ package props
 
 import (
 	"fmt"
+	"strings"
 	"testing"
 
 	"github.com/hashicorp/hcl/v2"
 	"github.com/hashicorp/hcl/v2/hclsyntax"
+	hcljson "github.com/hashicorp/hcl/v2/json"
 	"github.com/zclconf/go-cty/cty"
 	"pgregory.net/rapid"
 
@@ -177,6 +179,29 @@ func TestC06_Expr(t *testing.T) {
 					return
 				}
 				c.Failf("mark-lost", "changing the marked variable %q changes the result (%#v vs %#v) but the mark is not carried by both results", secret, r1, r2)
+			}
+			// the same expression in JSON syntax (constructors as JSON arrays / objects with "${...}"
+			// property names and values): the marks must flow there as well
+			if js, _ := render.ExprJSON(n); !strings.Contains(js, "<<") {
+				jexpr, jd := hcljson.ParseExpression([]byte(js), "t.json")
+				if !jd.HasErrors() {
+					var j1, j2 cty.Value
+					var jd1, jd2 hcl.Diagnostics
+					c.Guard("json Value(content1)", func() { j1, jd1 = jexpr.Value(ctx1) })
+					c.Guard("json Value(content2)", func() { j2, jd2 = jexpr.Value(ctx2) })
+					if !jd1.HasErrors() && !jd2.HasErrors() && !unmarkedDeep(j1).RawEquals(unmarkedDeep(j2)) {
+						c.Class("json_influence")
+						if !carriesMark(j1, secretMark) || !carriesMark(j2, secretMark) {
+							known := (condDynamicBranch(expr, ctx1, ctx2) && c.Known("cond-unconverted-when-other-branch-dynamic")) ||
+								(objectIndexedByMarkedKey(expr, ctx1, ctx2) && c.Known("object-index-drops-key-marks")) ||
+								((hasMarkedNullNested(ctx1.Variables[secret]) || hasMarkedNullNested(ctx2.Variables[secret])) && c.Known("conversion-drops-mark-of-null-element"))
+							if !known {
+								c.Set("json", js)
+								c.Failf("mark-lost-json", "JSON form %s: changing the marked variable %q changes the result (%#v vs %#v) but the mark is not carried by both results", js, secret, j1, j2)
+							}
+						}
+					}
+				}
 			}
 			c.Done(true, fmt.Sprintf("%s|%s|%d", dump, secret, placement))
 		})
